@@ -677,7 +677,7 @@ impl Axecutor {
             if self.mem_init_zero(start, length).is_ok() {
                 break;
             }
-            start += length;
+            start += std::cmp::max(length, 1);
         }
 
         Ok(start)
@@ -706,7 +706,7 @@ impl Axecutor {
             if res.is_ok() {
                 break;
             }
-            start += data.len() as u64;
+            start += std::cmp::max(data.len() as u64, 1);
         }
 
         Ok(start)
